@@ -253,6 +253,11 @@ func init() {
 		}
 		return nil
 	})
+	sx("AllocLimit", func(in *Interp, fr *frame, a []Value, _ *ssa.CallCommon) Value {
+		in.P.allocLimit = in.argInt(a[0])
+		in.P.allocLimitOn = true
+		return nil
+	})
 	sx("Concrete", func(in *Interp, fr *frame, a []Value, _ *ssa.CallCommon) Value {
 		return in.mkBool(a[0].(*Term).IsConst())
 	})
